@@ -15,6 +15,7 @@ func runC13(c *Check) {
 	c.Explanation = "The modular address arithmetic of C13 is out of static reach; decided are the structural conditions around it, for every layout: every error returned by the base computation chain (GetBase, HeaderForFileOffset, findProgramHeader, computeBase, elf.Open) is examined and the accompanying value is unused when it is non-nil (R1); the relocation base is only read after baseOnce.Do and only on the path where baseErr is nil (R2); both symbolizer pipes are sent addr - base with the base handed to their constructor from file.base, and the nm table adds that same base to every symbol address (R3); computeBase rejects addresses outside [start, limit) before looking for a segment (R4); the nm lookup returns early for an empty table or an address outside the table, and for data symbols compares against start+size (R5); HeaderForFileOffset cannot return success without a matching header (R6); the segment search receives the mapping's offset, its size limit-start and the sample's file offset addr-start+offset, the base formula receives start, limit and offset in that order, and ObjAddr returns addr-base, each compared as a linear form so that a dropped, swapped or wrong uint64 operand is reported (R7). Not decided: that the computed base and the chosen segment are the right ones, the binary search's arithmetic."
 	c.errorDiscipline()
 	c.baseReads()
+	c.baseStoredWhenComputed()
 	c.pipeAddresses()
 	c.computeBaseRange()
 	c.nmLookup()
@@ -303,7 +304,11 @@ func (c *Check) baseReads() {
 		n++
 		key := "base-read:" + fnName(f)
 		if fnName(f) == "(*binutils.fileAddr2Line).init" {
-			if bad := onlyCalledFromOnceIn(c, f, "(*binutils.fileAddr2Line).SourceLine"); bad == "" {
+			bad := onlyCalledFromOnceIn(c, f, "(*binutils.fileAddr2Line).SourceLine")
+			if bad == "" {
+				bad = c.initAfterBase(f)
+			}
+			if bad == "" {
 				c.ok("C13-R2", key, p.relFile(fa.Pos()), "file.base read in "+fnName(f), "init only runs under once.Do in SourceLine, after the baseErr test there")
 			} else {
 				c.bad("C13-R2", key, p.relFile(fa.Pos()), "file.base is read in init, which "+bad)
@@ -1147,4 +1152,172 @@ func baseGoodAtCallers(p *Program, f *ssa.Function, depth int) string {
 		}
 	}
 	return ""
+}
+
+// initAfterBase: init hands file.base to the tools it starts, so the once.Do that runs it
+// must come after the base was computed: in the function that calls it, baseOnce.Do
+// dominates the call and the call is unreachable when baseErr != nil.
+func (c *Check) initAfterBase(init *ssa.Function) string {
+	p := c.P
+	caller := p.Func("internal/binutils", "(*fileAddr2Line).SourceLine")
+	if caller == nil {
+		return "is started from a function that was not found"
+	}
+	n := 0
+	for _, g := range withHelpers(caller, 1) {
+		var doCalls []*ssa.Call
+		for _, b := range g.Blocks {
+			for _, ins := range b.Instrs {
+				call, ok := ins.(*ssa.Call)
+				if !ok || call.Call.StaticCallee() == nil || call.Call.StaticCallee().String() != "(*sync.Once).Do" || len(call.Call.Args) != 2 {
+					continue
+				}
+				mc, ok := call.Call.Args[1].(*ssa.MakeClosure)
+				if !ok {
+					continue
+				}
+				fn, _ := mc.Fn.(*ssa.Function)
+				if fn == nil || !(fn == init || (fn.Synthetic != "" && strings.HasPrefix(fn.Name(), init.Name()))) {
+					continue
+				}
+				doCalls = append(doCalls, call)
+			}
+		}
+		if len(doCalls) == 0 {
+			continue
+		}
+		reach := reachUnder(g, func(cond ssa.Value) int {
+			if cmp, ok := cond.(*ssa.BinOp); ok && (isFieldLoad(cmp.X, "binutils.file", "baseErr") || isFieldLoad(cmp.Y, "binutils.file", "baseErr")) {
+				switch cmp.Op {
+				case token.NEQ:
+					return 1
+				case token.EQL:
+					return -1
+				}
+			}
+			return 0
+		})
+		for _, call := range doCalls {
+			n++
+			if !dominatedByOnce(g, call) {
+				return "is started in " + fnName(g) + " (" + p.relFile(call.Pos()) + ") before baseOnce.Do has run: the tools are started with a copy of base 0 and are asked about runtime addresses instead of addresses in the file"
+			}
+			if reach[call.Block()] {
+				return "is started in " + fnName(g) + " (" + p.relFile(call.Pos()) + ") on a path where baseErr is non-nil"
+			}
+		}
+	}
+	if n == 0 {
+		return "is not started through once.Do in SourceLine"
+	}
+	return ""
+}
+
+// baseStoredWhenComputed (R8): the load base is a 64-bit value taken modulo 2^64: it
+// legitimately wraps when an object is mapped below its link address, so no comparison of it
+// with the mapping's addresses is a validity test.  Once GetBase has returned without error,
+// computeBase stores its result in file.base on every path: no return is reachable from the
+// call, on the err == nil side, that avoids the store.
+func (c *Check) baseStoredWhenComputed() {
+	p := c.P
+	cb := c.anchorFn("C13-R8", "internal/binutils", "(*file).computeBase")
+	getBase := p.Func("internal/elfexec", "GetBase")
+	if cb == nil || getBase == nil {
+		return
+	}
+	n := 0
+	for _, g := range withHelpers(cb, 1) {
+		for _, b := range g.Blocks {
+			for _, ins := range b.Instrs {
+				call, ok := ins.(*ssa.Call)
+				if !ok || call.Call.StaticCallee() != getBase {
+					continue
+				}
+				n++
+				key := "base-stored:" + fnName(g)
+				var basev, errv ssa.Value
+				for _, r := range *call.Referrers() {
+					if ex, ok := r.(*ssa.Extract); ok {
+						if ex.Index == 0 {
+							basev = ex
+						} else {
+							errv = ex
+						}
+					}
+				}
+				var store *ssa.Store
+				for _, b2 := range g.Blocks {
+					for _, i2 := range b2.Instrs {
+						if st, ok := i2.(*ssa.Store); ok && st.Val == basev {
+							if fa, ok := st.Addr.(*ssa.FieldAddr); ok {
+								if T, F := fieldOf(fa.X.Type(), fa.Field); T == "binutils.file" && F == "base" {
+									store = st
+								}
+							}
+						}
+					}
+				}
+				if store == nil || basev == nil {
+					c.bad("C13-R8", key, p.relFile(call.Pos()), fnName(g)+" does not store the result of GetBase in file.base")
+					continue
+				}
+				assume := func(cond ssa.Value) int {
+					cmp, ok := cond.(*ssa.BinOp)
+					if !ok || errv == nil || !(cmp.X == errv || cmp.Y == errv) {
+						return 0
+					}
+					switch cmp.Op {
+					case token.NEQ:
+						return -1
+					case token.EQL:
+						return 1
+					}
+					return 0
+				}
+				var escape *ssa.BasicBlock
+				seen := map[*ssa.BasicBlock]bool{}
+				var walk func(x *ssa.BasicBlock)
+				walk = func(x *ssa.BasicBlock) {
+					if seen[x] || x == store.Block() || escape != nil {
+						return
+					}
+					seen[x] = true
+					switch last := x.Instrs[len(x.Instrs)-1].(type) {
+					case *ssa.Return:
+						escape = x
+						return
+					case *ssa.If:
+						switch assume(last.Cond) {
+						case 1:
+							walk(x.Succs[0])
+							return
+						case -1:
+							walk(x.Succs[1])
+							return
+						}
+					}
+					for _, sc := range x.Succs {
+						walk(sc)
+					}
+				}
+				if b != store.Block() {
+					walk(b)
+				}
+				if escape != nil {
+					pos := call.Pos()
+					for _, i2 := range escape.Instrs {
+						if i2.Pos() != token.NoPos {
+							pos = i2.Pos()
+						}
+					}
+					c.bad("C13-R8", key, p.relFile(pos), fnName(g)+" can return without storing the base that GetBase computed successfully (a further test of the value): the base is a wrapped 64-bit difference and is above the mapping start whenever the object is mapped below its link address; such objects then get a sticky error and no address in the mapping is symbolized")
+				} else {
+					c.ok("C13-R8", key, p.relFile(store.Pos()), "a base computed without error is always stored", "no return is reachable from the GetBase call on its err == nil side without passing the store to file.base")
+				}
+			}
+		}
+	}
+	if n == 0 {
+		c.undecided("C13-R8", "base-stored", p.relFile(cb.Pos()), "computeBase no longer calls elfexec.GetBase")
+	}
 }
